@@ -426,6 +426,12 @@ func (b *BMC) rakp1(ev *Event, p []byte) []byte {
 		ev.Problem = "rakp1 managed system session ID unknown"
 		return nil
 	}
+	if se.Active {
+		// the ID belongs to a session whose establishment has completed (RAKP 3 was accepted): it no
+		// longer names an exchange in progress, and a new one starts with an Open Session Request
+		ev.Problem = "rakp1 for a session ID whose establishment has already completed"
+		return RMCP(SessHdr(0x13, 0, 0, append([]byte{tag, 0x02, 0, 0}, LE32(se.ConsoleSID)...)))
+	}
 	ev.Accepted = true
 	copy(se.Rm[:], p[8:24])
 	// RoleXor models a peer that hashes another role byte than the one it was sent
